@@ -162,6 +162,14 @@ func init() {
 				for _, v := range uAlpha {
 					chk(c16Case{Fn: "unsigned", Depth: d, UVal: v})
 				}
+				// values away from the boundaries: an arithmetic lattice over the whole 64-bit range
+				const nl = 1 << 14
+				step := (^uint64(0))/nl | 1
+				for i := uint64(0); i < nl; i++ {
+					u := i * step
+					chk(c16Case{Fn: "unsigned", Depth: d, UVal: u})
+					chk(c16Case{Fn: "signed", Depth: d, Val: int64(u + 1<<63)})
+				}
 				if d <= 16 {
 					for v := int64(-1 << 17); v <= 1<<17; v++ {
 						chk(c16Case{Fn: "signed", Depth: d, Val: v})
@@ -182,7 +190,7 @@ func init() {
 			c.Sample(c16Case{Fn: "signed", Depth: 64, Val: -1 << 63})
 			c.Sample(c16Case{Fn: "scale", Depth: 64, Low: 1, Type: "uint64"})
 			c.Sample(c16Case{Fn: "bounds", Depth: 63})
-			c.Set("rule", "all 64 depths x (bounds; SignedValue over every int64 within +-3 of 0, +-2^k, +-1.5*2^k and the bounds; UnsignedValue over the unsigned analogue; for depths <= 16 additionally every value in [-2^17, 2^17]) and Scale[T](h,l) for all pairs h>=l and all 11 integer types where 2^(h-l) fits T; oracle in math/big; each (function, depth, argument) enumerated once, all non-trivial")
+			c.Set("rule", "all 64 depths x (bounds; SignedValue over every int64 within +-3 of 0, +-2^k, +-1.5*2^k and the bounds; UnsignedValue over the unsigned analogue; a lattice of 2^14 values with an odd step across the whole 64-bit range; for depths <= 16 additionally every value in [-2^17, 2^17]) and Scale[T](h,l) for all pairs h>=l and all 11 integer types where 2^(h-l) fits T; oracle in math/big; each (function, depth, argument) enumerated once, all non-trivial")
 			c.Assume("64-bit arguments outside the alphabet are not covered")
 		},
 		RunCase: func(c *core.Ctx, raw json.RawMessage) []F { return c16Run(decode[c16Case](raw)) },
